@@ -36,7 +36,7 @@ Fixpoint text_ok (en : env) (e : expr) {struct e} : Prop :=
   match e with
   | ELoc i => match nth i (e_locals en) (Leaf KLocal "" 0 true) with Leaf KLocal _ _ _ => True | _ => False end
   | EBin _ x y => text_ok en x /\ text_ok en y
-  | ENeg x | ENot x => text_ok en x
+  | ENeg x | ENot x | EField x => text_ok en x
   | ECall f args => lingo_plain_call (nm en f) = true /\
                     (fix all (l : list expr) : Prop := match l with [] => True | x :: r => text_ok en x /\ all r end) args
   | ELCall f args => lingo_plain_call (nth f (e_lfuncs en) "") = true /\
@@ -275,6 +275,8 @@ Proof.
     apply negb_true_iff in H1. apply negb_true_iff in H2. apply negb_true_iff in H3.
     erewrite accessor_text; [| apply (IHx Hx) | exact H1 | exact H2 | exact H3]. norm_render. reflexivity.
   - (* the <key property> *) intros n _ pc ind. cbn [reify_e pp_tok]. norm_render. reflexivity.
+  - (* field *) intros x IHx Hx pc ind. cbn [reify_e pp_tok]. unfold gen_lingo in *. cbn [gen_lingo_sp]. rewrite (IHx Hx).
+    change (String.eqb "field" "minus") with false. cbn iota. norm_render. reflexivity.
   - intros _ pc ind. reflexivity.
   - intros x l IHx IHl [Hx Hl] pc ind. cbn [reify_args]. destruct (reify_args en (pc + zlen (compile_e x)) l) as [ns pa] eqn:Er.
     cbn [fst map]. rewrite (IHx Hx). specialize (IHl Hl (pc + zlen (compile_e x))%Z ind). rewrite Er in IHl. cbn [fst] in IHl. rewrite IHl. reflexivity.
